@@ -84,6 +84,74 @@ def c06_oracle(case, obs):
     plan = case.get("plan")
     if plan and "w" in plan:
         out.extend(liveness(case, obs, log, plan))
+    if case.get("flavour") == "bidi":
+        out.extend(retransmit_deadline(case, obs))
+    return out
+
+
+def retransmit_deadline(case, obs):
+    """Bidirectional family: a sender that has unacknowledged data (or an unacknowledged FIN) must re-emit the
+    segment that starts at its oldest unacknowledged byte at the retx_threshold-th egress pass after the last
+    acknowledgement progress (one pass of slack), whatever the peer sent in between; a peer window of 0 excuses it."""
+    cfg = F.full_cfg(case["cfg"])
+    th = cfg["retx_threshold"]
+    out = []
+    una, sent_end, stale, wnd, dead, flagged = {}, {}, {}, {}, set(), set()
+
+    def delivered(p):
+        if p[0] != 0:
+            return
+        K = (p[2], p[4], p[1], p[3])                 # the receiving endpoint as a sender key
+        fl = p[7]
+        if fl & F.F_RST:
+            dead.add(K)
+            dead.add(F.conn_key(p))
+            return
+        if fl & F.F_SYN or not fl & F.F_ACK or K not in una:
+            return
+        wnd[K] = p[8]
+        if una[K] < p[6] <= sent_end.get(K, una[K]):
+            una[K] = p[6]
+            stale[K] = 0
+
+    for i, (c, o) in enumerate(zip(case["script"], obs["obs"])):
+        n = c[0]
+        if n == "egress":
+            outstanding = {K for K in una if una[K] < sent_end.get(K, una[K])}
+            resent = set()
+            for p in o["pk"]:
+                if p[0] != 0:
+                    continue
+                K = F.conn_key(p)
+                fl = p[7]
+                if fl & F.F_RST:
+                    dead.add(K)
+                    continue
+                if fl & F.F_SYN:
+                    una[K] = p[5] + 1
+                    sent_end[K] = p[5] + 1
+                    stale[K] = 0
+                    continue
+                occ = len(p[9]) + (1 if fl & F.F_FIN else 0)
+                if occ and K in una:
+                    if K in outstanding and p[5] == una[K]:
+                        resent.add(K)
+                    sent_end[K] = max(sent_end[K], p[5] + occ)
+            for K in outstanding:
+                if K in resent or wnd.get(K, 1) == 0:
+                    stale[K] = 0
+                else:
+                    stale[K] = stale.get(K, 0) + 1
+                if stale[K] > th and K not in dead and K not in flagged:
+                    flagged.add(K)
+                    out.append(("step %d: endpoint %s has had bytes from seq %d unacknowledged for %d egress passes without "
+                                "acknowledgement progress and has not retransmitted them (retx_threshold %d), although only "
+                                "one packet was lost - the peer kept sending" % (i, K, una[K], stale[K], th), None))
+        elif n in ("deliver", "dup") and o.get("r") == "ok":
+            delivered(o["p"])
+        elif n == "flush":
+            for p in o["pk"]:
+                delivered(p)
     return out
 
 
@@ -220,7 +288,7 @@ class Spec(PropSpec):
     coq_targets = ["C06.vo"]
     theorems = ["c06_prefix", "c06_eof_after_all", "c06_handshake_sync", "c06_abort_is_loud", "c06_dup_reacked",
                 "c06_acked_delivered", "c06_sender_progress", "c06_quiescent_complete", "c06_window_update_lost_refuted",
-                "c06_no_spurious_abort_partial", "c06_timeout_exact", "c06_kernel_uses_tcb_on_conn", "c06_nonvacuous"]
+                "c06_no_spurious_abort_partial", "c06_timeout_exact", "c06_retransmit_every_threshold", "c06_kernel_uses_tcb_on_conn", "c06_nonvacuous"]
     consts = F.NET_CONSTS
     anchors = F.NET_ANCHORS
     harness_bins = ["nettcp"]
@@ -231,7 +299,9 @@ class Spec(PropSpec):
             "random KernelConfig (MSS 1..1460, caps 1..70000, retx threshold/max), writes/reads of random sizes on both ends, "
             "half-close, close, loopback and cross-host, IPv4/IPv6; exhaustive single-fault family over a fixed small transfer; "
             "'fair' family: fewer than retx_max drops in total, then a long phase in which everything is delivered and both "
-            "applications keep pumping. Non-trivial = at least one fault hit a real packet and data was read; "
+            "applications keep pumping; deterministic 'bidi' family: one lost request / FIN while the opposite direction streams "
+            "a heartbeat every round (the lost segment must be retransmitted at the retx_threshold-th pass whatever the peer "
+            "sends). Non-trivial = at least one fault hit a real packet and data was read; "
             "distinct = distinct (cfg, script)")
     assumptions = [
         "theorems are stated on the connection-level system `cstep` built from the same per-TCB functions as the kernel model (c06_kernel_uses_tcb_on_conn); the kernel model is what the correspondence checks against the implementation",
@@ -256,7 +326,7 @@ class Spec(PropSpec):
         n = 360 if ctx.tier == "quick" else 3000
         if ctx.escalate:
             n *= 2
-        cases = list(F.exhaustive_single_faults())
+        cases = list(F.exhaustive_single_faults()) + F.bidi_cases()
         if ctx.tier != "quick":
             cases += F.exhaustive_single_faults(retx_threshold=1, retx_max=3)
         for i in range(n):
